@@ -355,6 +355,32 @@ def run(ctx):
                     readback(r.read_set(tag=tag) if tag is not None else r.read_set(), item[1])
         assert not r
 
+    # wide trees: hundreds of constructed values side by side under one reader, at one level and spread over several levels ("all nestings" is
+    # about shape, not only depth), and deep narrow ones
+    def wide(w, widths):
+        spec = []
+        for i in range(widths[0]):
+            k = "seq" if i % 3 else "set"
+            with (w.push_sequence() if k == "seq" else w.push_set()) as inner:
+                sub = wide(inner, widths[1:]) if len(widths) > 1 else []
+                if not sub and i % 5 == 0:
+                    inner.write_integer(i - 2)
+                    sub = [("int", i - 2)]
+                spec.append((k, sub, None))
+        return spec
+
+    for widths in ([101], [150], [300], [1000], [12] * 3, [12, 12], [40, 5], [3, 40], [2] * 9, [1] * 90, [5, 30, 1]):
+        evaluations += 1
+        hist["tree-wide"] += 1
+        w = ASN1Writer()
+        spec = wide(w, widths)
+        data = bytes(w.get_data())
+        try:
+            readback(ASN1Reader(data), spec)
+        except BaseException as e:  # noqa: BLE001
+            violations.append({"key": None, "what": f"sequences / sets written side by side (fan-out per level {widths}) are not read back: {type(e).__name__} {e}"[:300],
+                               "fan_out_per_level": widths, "bytes": len(data)})
+
     for _ in range(ctx.scale(500, 10000)):
         evaluations += 1
         w = ASN1Writer()
